@@ -1,6 +1,8 @@
 import HmfVerif.Proofs.RegistryLemmas
 import HmfVerif.Proofs.History
 import HmfVerif.Gen.Desc
+import HmfVerif.Gen.Guards
+import HmfVerif.Spec.Guards
 /-!
 # C14 — every constructor argument is a tracked, validated, round-trippable parameter
 -/
@@ -165,5 +167,8 @@ theorem defaults_when_no_overrides (defaults : Params) : mkParams defaults [] = 
 example : mkParams [(1, 10), (2, 20)] [(2, 99)] = some [(1, 10), (2, 99)] := by decide
 example : mkParams [(1, 10), (2, 20)] [(3, 5)] = none := by decide
 example : getMdl (defineAll Registry.empty [⟨0, 7, 100, false⟩, ⟨0, 7, 101, false⟩, ⟨0, 8, 102, true⟩]) 0 7 = some 101 := by decide
+
+/-- the validators' accepted ranges (σ₈, n, z, δc, WDM particle mass) are the documented ones -/
+theorem guards_validators : Gen.Guards.transfer = Spec.Guards.transfer ∧ Gen.Guards.massFunction = Spec.Guards.massFunction ∧ Gen.Guards.wdm = Spec.Guards.wdm := by decide
 
 end Hmf.C14
